@@ -8,7 +8,7 @@
 (* and reject exactly what Ntlm!Unwrap rejects.                               *)
 EXTENDS Ntlm, TraceLib
 
-N2 == INSTANCE WireNla
+N2 == INSTANCE WireNla WITH Strict <- TRUE
 
 VARIABLES l, c2s, s2c, keyOk
 tvars == <<l, c2s, s2c, keyOk>>
